@@ -3,16 +3,23 @@
    session (raw rule -> decoded rule or error text), and the items of the session, each with what the real
    code answered and the contents of both rule tables read from the App afterwards.
    The model used is the REPAIRED code ([repaired]). *)
+From Coq Require Import Uint63.
 From Relay Require Import Base.Prelude Base.AList Model.AdminJson Model.AdminApi.
 Local Open Scope N_scope.
 
-(* byte strings arrive as hex text: one Coq token per string keeps the case files quick to read *)
-Definition hexval (a : ascii) : N := let n := N_of_ascii a in if n <? 58 then n - 48 else n - 87.
-Fixpoint hx (s : string) : bytes :=
-  match s with
-  | String a (String b r) => (16 * hexval a + hexval b) :: hx r
-  | _ => []
+(* byte strings arrive packed seven to a 63-bit machine integer (one Coq term per seven bytes keeps the case
+   files quick to read): [ub n ws] are the first n bytes, least significant byte of each word first *)
+Fixpoint word (k : nat) (w : Uint63.int) : bytes :=
+  match k with
+  | O => []
+  | S j => Z.to_N (Uint63.to_Z (Uint63.land w 255%uint63)) :: word j (Uint63.lsr w 8%uint63)
   end.
+Fixpoint ubn (n : nat) (ws : list Uint63.int) : bytes :=
+  match ws with
+  | [] => []
+  | w :: r => word (Nat.min n 7) w ++ ubn (n - 7) r
+  end.
+Definition ub (n : N) (ws : list Uint63.int) : bytes := ubn (N.to_nat n) ws.
 
 Inductive obs :=
 | OReply (b : bytes)       (* bytes seen on the control topic *)
